@@ -123,6 +123,7 @@ func RangeText(rk, lo, hi string) string {
 
 // Obs is what one step did on the real implementation.
 type Obs struct {
+	Stretched int `json:"stretched,omitempty"` // the far-end representative an out-of-range index was replaced by
 	// result: v | b | s | n (nothing observed) | err (an Elk error: ErrClass/ErrMsg) |
 	// crash (Go panic / missing method: Panic)
 	T        string `json:"t"`
